@@ -4,13 +4,12 @@
 
     Full statement (kept visible): additionally, re-writing ([to_writer]) an archive opened from
     arbitrary bytes never crashes.  Proved here: every reader entry point and every lookup, for every byte
-    string; for the re-write clause [C08_rewrite_partial]: an archive opened from ANY bytes whose addressed tile
-    ranges can all be read, within the size limits of the format ([save_premises], [save_sizes]: tile ids below
-    2^63, fewer than 2^32 tiles, sections below 2^64, no hash collision among the contents), is written
-    successfully — no crash and no error.  Outside those limits (ids >= 2^63 in a hostile directory, unreadable
-    tile ranges) the re-write clause is covered by the correspondence run and the direct oracle only (it needs
-    the invariant that ids reachable from a parsed directory satisfy id + run <= 2^64 - 1, which holds by
-    [check_runs] but is not carried through [finish]).  Allocator and stack behaviour are observed (worker
+    string; for the re-write clause [C08_rewrite]: an archive opened from ANY well-formed bytes is re-written without
+    a crash (success, or the error of an unreadable tile) under size premises only - fewer than 2^32 tiles, output
+    sections below 2^64; ids up to 2^64 - 2, unreadable tile ranges and colliding contents are all covered
+    (RewriteSafetyProofs.v: the parser bounds every id by [check_runs]; [finish] is safe because ids arrive in
+    ascending order).  [C08_rewrite_partial] adds success when every tile can be read and contents do not collide.
+    Allocator and stack behaviour are observed (worker
     process), not modelled. *)
 Require Import PM.Base PM.Oracles PM.Params PM.Header PM.Directory PM.DirectoryProofs PM.Stream PM.TileManager
                PM.DirReader PM.Hilbert PM.Archive PM.ArchiveProofs PM.SafetyProofs
@@ -58,6 +57,44 @@ Proof.
   destruct (Hprem m HR) as [Hp Hs].
   apply (save_total cx Hsize asy p m HR Hp Hs); vm_compute; discriminate.
 Qed.
+
+(** the re-write clause at full strength: an archive opened from ANY well-formed byte string, however hostile its
+    directories (ids up to 2^64 - 2, tile ranges that cannot be read, colliding contents), is re-written without
+    a crash - the write succeeds, or it returns the error of the tile that could not be read.  Premises: fewer
+    than 2^32 tiles and the physical sizes of the output below 2^64 / 2^32 ([rewrite_sizes]); no premise on ids,
+    on readability or on the hash function.  [C08_write_never_crashes] is the same for any store whose ids
+    are below 2^64 - 1 and whose contents are 1 .. 2^32 - 1 bytes long (in-memory tiles included). *)
+Require Import PM.RewriteSafetyProofs.
+Theorem C08_rewrite : forall cx, codec_size cx -> forall img r p asy,
+  wf_bytes img -> from_reader cx img r = Ok p ->
+  nlen (tile_by_id (p_tm p)) + 1 < two32 -> rewrite_sizes cx asy p ->
+  (exists b, to_bytes cx asy p = Ok b) \/ (exists e, to_bytes cx asy p = Err e /\ finish cx (p_tm p) = Err e).
+Proof.
+  intros cx Hsize img r p asy Hw Hopen Hcnt Hsz.
+  apply (rewrite_never_crashes cx Hsize img r p asy Hw Hopen Hcnt Hsz); try reflexivity; vm_compute; discriminate.
+Qed.
+Theorem C08_write_never_crashes : forall cx, codec_size cx -> forall asy p,
+  TileManagerProofs.Inv cx (p_tm p) -> store_bounded (p_tm p) -> p_icomp p <> CUnknown ->
+  nlen (tile_by_id (p_tm p)) + 1 < two32 -> rewrite_sizes cx asy p ->
+  p_minz p < 256 -> p_maxz p < 256 -> p_cz p < 256 ->
+  (exists b, to_bytes cx asy p = Ok b) \/ (exists e, to_bytes cx asy p = Err e /\ finish cx (p_tm p) = Err e).
+Proof.
+  intros cx Hsize asy p HI Hb Hc Hcnt Hsz Z1 Z2 Z3.
+  apply (write_bounded_store cx Hsize asy p HI Hb Hc Hcnt Hsz Z1 Z2 Z3); try reflexivity; vm_compute; discriminate.
+Qed.
+(** what the parser guarantees for every directory it accepts, whatever the bytes *)
+Theorem C08_parsed_entries_bounded : forall cx c bs es, decode_dir cx c bs = Ok es ->
+  Forall (fun e => e_id e + e_run e < two64 /\ 1 <= e_len e /\ e_len e < two32) es.
+Proof. exact decode_bounds. Qed.
+
+(** non-vacuity: an archive with one tile whose last byte is cut off opens (tile data is read lazily) and its
+    re-write returns an error, both by evaluation *)
+Example C08_rewrite_example :
+  let img := match (do s <- add_tile ctx_id (tm_empty None) 5 [7; 8; 9];
+                    to_bytes ctx_id false (mkPM TUnknown CUnknown CNone 0 0 0 (Float.of_Z 0) (Float.of_Z 0) (Float.of_Z 0) (Float.of_Z 0) (Float.of_Z 0) (Float.of_Z 0) empty_object s))
+             with Ok b => removelast b | _ => [] end in
+  (do p <- from_reader ctx_id img full_range; to_bytes ctx_id false p) = Err EEof.
+Proof. vm_compute. reflexivity. Qed.
 
 Theorem C08_params : max_dir_depth = Some 3.
 Proof. reflexivity. Qed.
